@@ -8,7 +8,7 @@ from common import Str, sx
 
 ID = 'C10'
 LEAN_MODULES = ['Cellml.Props.C10']
-N = {'quick': 420, 'thorough': 12000}
+N = {'quick': 2400, 'thorough': 40000}
 RULE = ('systems of 3-12 variables built through Model/add_variable/create_quantity/add_equation: a free variable, '
         '0-4 states with dyadic initial values, constants, computed variables; right-hand sides are random trees '
         '(+ - * / integer powers, depth <= 3) over dyadic numbers, states, the free variable, earlier definitions and '
@@ -1121,16 +1121,43 @@ def compare(case, obs, replies):
                 continue            # ill-formed content: SymPy may cancel the undefined reference away (x**2 - x**2)
             elif out == 'ok':
                 return '%s: get_value(%s) implementation %s model raises %s' % (where, v, rest[0], m_[1])
-            elif (ref['wf'] or m_[1] == 'fuel') and m_[1] in MODEL_ERR and rest[0] != MODEL_ERR[m_[1]]:
+            elif (ref['wf'] or (m_[1] == 'fuel' and case['kind'] == 'illformed')) and m_[1] in MODEL_ERR \
+                    and rest[0] != MODEL_ERR[m_[1]]:
                 return '%s: get_value(%s) implementation raises %s model %s' % (where, v, rest[0], m_[1])
     return None
 
 
 MANIFEST = {
-    'technique': 'Lean 4 model of the role queries and of the recursive evaluator _get_value (fuel, memo) on top of the '
-                 'C08 state machine; denotational semantics as an inductive relation; total-correctness theorem by '
-                 'induction on fuel and on a ranking of the definitions + differential correspondence over API '
+    'technique': 'Lean 4 model of the six role queries and of the recursive evaluator _get_value (expansion of '
+                 'derivatives, the evaluated memo, recursion on fuel) on top of the C08 state machine; the meaning of a '
+                 'definition as an inductive relation (no fuel, no memo, no order); total-correctness theorem by '
+                 'induction on fuel against a ranking of the definitions + differential correspondence over API '
                  'histories and loaded documents',
-    'text': 'see notes/reports/C10.md',
-    'note': 'in progress',
+    'text': ('Proved in Lean (lean/Cellml/Props/C10.lean, standard axioms only) for ALL well-formed models — C08 '
+             'invariant, every variable at most one definition, all ODEs share one bound variable that is neither a '
+             'state nor defined, every reference defined and in the model, definitions acyclic (a ranking exists), '
+             'states have initial values — of any size: states_iff_ode, states_in_order (get_state_variables = '
+             'variables() filtered by is_state, order_added strictly increasing), is_state_iff_ode, free_is_bvar, '
+             'free_none_iff, derivs_exact, derived_exact, graph_queries_return, constant_iff_no_var; getValue_fuel '
+             '(|variables|+1 levels of recursion suffice, never RecursionError, more fuel changes nothing), '
+             'getValue_denotes (get_value(v) = q IFF the definition closure of v denotes q at the initial state: '
+             'states at initial values, free variable 0, a derivative = the right-hand side of its ODE, recursively; '
+             'when the definitions give no number it raises), value_unique; roles_history_independent (ANY two '
+             'histories of API calls reaching the same variables and equation list give the same seven answers; '
+             'corollary of C08 inv_reachable), roles_as_fresh, roles_equation_order_independent (well-formed models '
+             'with the same variables and the same SET of equations agree on everything). Proved counterexamples for '
+             'the code before the two fix: commits (today_derivative_raises, today_alias_raises) and for a free '
+             'variable with a definition (free_variable_with_definition: why well-formedness is needed). The model is '
+             'tied to model.py by the correspondence check: per quick run 2400 cases (API builds, detour histories '
+             'with mid-detour checks, C08-generator histories with a check after every call, docgen documents, 12 '
+             'repository CellML files, 11 ill-formed families), every check compares all six role queries and '
+             'get_value of every variable; the independent oracle evaluates the equations as entered with exact '
+             'Fractions, takes the roles from the property text and rebuilds a fresh Model (equations shuffled) for '
+             'history independence. Two defects found and fixed in /repo (findings/C10.json).'),
+    'note': ('Trusted: Lean kernel; propext, Classical.choice, Quot.sound; the correspondence harness (object identity '
+             '-> numbers, SymPy trees read back into the model\'s expression type). SymPy is used as it is: its '
+             'canonicalisation when an equation is built decides which tree the model holds, and binary64 results are '
+             'compared with a first-order rounding bound. Functions other than + - * / and integer powers are opaque '
+             'to the model (roles compared, values via the float reference only). For ill-formed content (mid-history) '
+             'only raises-vs-returns is compared. Division by zero at the initial state is outside the property.'),
 }
